@@ -4,6 +4,7 @@ integer pairs (no float crosses the line protocol), and the Lean specification
 predicates (SpecFp / SpecFix / SpecMono / Exact53) evaluated on the
 implementation's own outputs as the property oracle."""
 import math
+import struct
 from fractions import Fraction
 
 CLAIM = dict(
@@ -12,22 +13,47 @@ CLAIM = dict(
           "the scaled value truncated toward zero, or the nearest end of the range (fp_total, fp_sat; the rule "
           "determines the result: spec_unique), is monotone (fp_mono), never leaves the range (fp_range), is within one "
           "LSB inside the range (fp_lsb); float_to_fp(fp_to_float(k)) = k for every in-range k that a double holds "
-          "exactly (fp_inverse; all |k| <= 2^53: exact53_of_small; impossible beyond: inverse_counterexample 2^53+1, "
-          "known finding); the NumPy array converter equals the scalar one element for element for 8/16/32 bits "
-          "(array_eq_scalar) and for 64 bits below the rounded clip bound (array64_eq_scalar_below_bound), while at or "
-          "above it the pinned code casts out of range (array64_defect_all: reported as a violation with a concrete "
-          "input; the repaired code is proved equal for all four widths: array_eq_scalar_repaired); the deprecated "
-          "float_to_fix (widths <= 64) never trips its assertion, equals float_to_fp modulo 2^n_bits whenever its float "
+          "exactly (fp_inverse), and these k are characterised exactly: k = m * 2^j with |m| <= 2^53, i.e. at most 53 "
+          "significant bits whatever the magnitude (exact53_iff, exact53_of_trailing_zeros, exact53_of_small; impossible "
+          "for any other k: inverse_counterexample 2^53+1, known finding). The model of int -> double conversion "
+          "(round53) is PROVED to be IEEE round-to-nearest, ties-to-even, to 53 significant bits: within half an ulp "
+          "with the even significand at a tie, significand in [2^52, 2^53] when rounding happens "
+          "(round53_nearest_even), no multiple of the ulp and no 53-bit dyadic of ANY exponent is closer and an equally "
+          "close different one forces the even significand (round53_nearest_on_grid, round53_nearest_all), monotone "
+          "(round53_mono), idempotent (round53_idem), odd (round53_neg), the identity up to 2^53 (round53_id_small). "
+          "The NumPy array converter equals the scalar one element for element for 8/16/32 bits (array_eq_scalar) and "
+          "for 64 bits below the rounded clip bound (array64_eq_scalar_below_bound), while at or above it the code "
+          "before fixes/c16-saturate-64bit.diff casts out of range (array64_defect_all); the repaired code is proved "
+          "equal for all four widths (array_eq_scalar_repaired). float32 / float16 INPUT ARRAYS: the code without "
+          "fixes/c16-float32-arrays.diff computes in the dtype of the input, and as soon as 2.0**n_frac is not a finite "
+          "value of that dtype (n_frac >= 16 for float16, >= 128 for float32) EVERY positive element saturates to the "
+          "maximum and every zero becomes NaN (array_narrow_scale_overflow, array_narrow_defect: float16 0.5 in S15.16 "
+          "gives 2^31-1 instead of 32768) - reported as violation array-float32-wrap with a concrete input until the "
+          "fix is applied; with the fix the element is converted by the float64 code on its exact value and equals the "
+          "scalar converter (array_eq_scalar_narrow_fixed). The deprecated float_to_fix, for EVERY width its "
+          "constructor accepts (n_int <= 1023; OverflowError from n_int = 1024 on is modelled: "
+          "deprecated_wide_rejected), never trips its assertion, equals float_to_fp modulo 2^n_bits whenever its float "
           "bound is exact (n_int <= 53; for every width after the repair) and fix_to_float equals fp_to_float on the "
           "two's-complement reading. Tied to rig/type_casts.py on every run by exact correspondence of all six "
           "converters on tens of thousands of generated values x formats (boundaries +-ulps, far beyond, subnormal, "
-          "negative; scalars and arrays of several shapes) with the Lean rule evaluated on every output."),
+          "negative; widths 1-1100; scalars and float64 / float32 / float16 arrays of several shapes) with the Lean "
+          "rule evaluated on every output."),
     design="3/C16",
-    note=("Doubles are modelled as (m, e) pairs; IEEE facts in the trusted base: scaling by a power of two is exact "
-          "barring overflow/underflow, int() truncates, int->double is round-to-nearest-even, np.clip compares exactly, "
-          "an out-of-range float->int cast is unspecified. Array input dtype float64 (float32 arrays are outside the "
-          "claim). NaN/inf inputs are outside the property. The model covers both the pinned code and the code after "
-          "fixes/c16-saturate-64bit.diff; the harness detects which one the tree contains."),
+    note=("Doubles are modelled as (m, e) pairs. PROVED inside the model (no longer trusted): the model's int -> "
+          "double conversion is round-to-nearest-even to 53 bits, monotone, idempotent, exact up to 2^53 and for every "
+          "integer with at most 53 significant bits; float(2^n - 1) for every n. TRUSTED (validated by the "
+          "correspondence on every run, not proved): CPython's int -> float conversion and NumPy's int64/uint64 -> "
+          "float64 cast ARE IEEE round-to-nearest-even; multiplying a binary float by a power of two is exact absent "
+          "overflow / underflow (rounded to the subnormal grid below); int() truncates; np.clip compares exactly; an "
+          "out-of-range or NaN float -> int cast is unspecified; for float32 / float16 arrays on the unfixed code: "
+          "NumPy >= 2 promotion (Python scalars take the array's dtype). VALIDATED only (correspondence, no theorem): "
+          "the element-wise behaviour of the unfixed code on float32 / float16 arrays outside the two proved defect "
+          "classes (npFloatToFixNarrow: 0 mismatches); results the model calls 'unspecified' are not compared. "
+          "A narrow-dtype element is reported as a violation only when its scaled value is a finite number of its own "
+          "dtype (the narrowest reading of 'scaled value is still a finite float'). np.longdouble arrays, NaN and "
+          "infinite inputs are outside the claim. The model covers the code before and after "
+          "fixes/c16-saturate-64bit.diff and before and after fixes/c16-float32-arrays.diff; the harness detects which "
+          "the tree contains (evidence: code_variant)."),
     technique="Lean 4 theorems over a hand-written model + differential correspondence + Lean spec as oracle")
 
 THEOREMS = ["dtypes_cover", "fp_total", "fp_sat", "spec_unique", "spec_range", "fp_range", "fp_lsb", "fp_mono",
@@ -35,15 +61,25 @@ THEOREMS = ["dtypes_cover", "fp_total", "fp_sat", "spec_unique", "spec_range", "
             "array_eq_scalar", "array64_eq_scalar_below_bound", "array64_defect_all", "array64_defect",
             "array_eq_scalar_repaired",
             "deprecated_no_assert", "deprecated_twos_complement", "deprecated_twos_complement_repaired",
-            "deprecated64_defect", "fix_to_float_eq", "specFp_iff_rat"]
+            "deprecated64_defect", "deprecated_wide_rejected", "fix_to_float_eq", "specFp_iff_rat",
+            # Props/C16Round.lean: the IEEE facts about int -> double conversion proved inside the model
+            "exact53_of_trailing_zeros", "exact53_iff", "round53_neg", "round53_idem", "round53_id_small",
+            "round53_mono", "round53_nearest_even", "round53_nearest_on_grid", "round53_nearest_all",
+            # Props/C16Narrow.lean: float32 / float16 input arrays
+            "array_narrow_defect", "narrow_bounds_single_rounding", "array_narrow_scale_overflow",
+            "array_eq_scalar_narrow_fixed"]
 
 RULE = ("one case = one format (signed, n_bits, n_frac) with 6-24 doubles built around the format: exactly at, one and "
         "two ulps around min-1, min, max, max+1 (scaled), in-range values with fractional parts, far beyond, "
-        "subnormal, zero, negative, log-uniform random; formats: widths 8/16/32/64 mostly plus every width 1-70, "
+        "subnormal, zero, negative, log-uniform random; formats: widths 8/16/32/64 mostly plus every width 1-70, wide "
+        "widths 71-1100 (around 1023/1024 where the deprecated constructor starts to raise), "
         "n_frac in, below (negative) and above the width plus extreme exponents; arrays in shapes (n,), (n,1), (1,n), "
-        "(a,b), 0-d, python scalar, strided view; inverse cases: integers at the ends, +-1, 53/54/63/64-bit patterns. "
+        "(a,b), 0-d, python scalar, strided view; narrow cases: float32 / float16 arrays (values rounded to the dtype, its "
+        "largest / least values, scaled values around the dtype's overflow threshold) with n_frac around the points "
+        "where 2.0**n_frac overflows / underflows the dtype; inverse cases: integers at the ends, +-1, 53/54/63/64-bit "
+        "patterns. "
         "A case is non-trivial when it contains both a saturating value and an in-range value whose scaled value has a "
-        "fractional part (conversion cases) or an in-range integer of more than 24 bits (inverse cases); distinct = "
+        "fractional part (conversion and narrow cases) or an in-range integer of more than 24 bits (inverse cases); distinct = "
         "distinct canonical JSON")
 
 NP_BITS = (8, 16, 32, 64)
@@ -127,8 +163,14 @@ def gen_fmt(rng, extreme_ok=True):
         bits = rng.choice(NP_BITS)
     elif r < 0.8:
         bits = rng.choice([53, 54, 55, 63, 65])
-    else:
+    elif r < 0.95:
         bits = rng.randrange(1, 71)
+    elif r < 0.985:
+        # wide formats: the scalar and the deprecated converters accept any width (deprecated: n_int <= 1023)
+        bits = rng.choice([72, 80, 96, 100, 127, 128, 129, 200, 256, 512, 1000, rng.randrange(71, 1023)])
+    else:
+        # around the width where validate_fp_params stops converting (1 << n_int) - 1 to a float
+        bits = rng.choice([1022, 1023, 1024, 1025, 1026, 1100])
     r = rng.random()
     if r < 0.55:
         frac = rng.randrange(0, bits + 1)
@@ -258,6 +300,104 @@ def gen_ints(rng, fmt, n):
 def gen_inv_case(rng):
     fmt = gen_fmt(rng, extreme_ok=rng.random() < 0.3)
     return {"kind": "inv", "fmt": fmt, "ks": gen_ints(rng, fmt, rng.choice([6, 10, 16])), "shape": rng.randrange(5)}
+
+
+# ---------------------------------------------------------------- float32 / float16 input arrays
+NARROW = {"f16": dict(np="float16", pack="e", p=11, emax=16, emin=-24),
+          "f32": dict(np="float32", pack="f", p=24, emax=128, emin=-149)}
+
+
+def to_narrow(x, prec):
+    """the value of the narrow format nearest to the double x (as a double), None on overflow"""
+    try:
+        y = struct.unpack(NARROW[prec]["pack"], struct.pack(NARROW[prec]["pack"], x))[0]
+    except (OverflowError, struct.error):
+        return None
+    return y if math.isfinite(y) else None
+
+
+def gen_narrow_case(rng):
+    prec = rng.choice(["f32", "f32", "f16", "f16"])
+    P = NARROW[prec]
+    emax, emin = P["emax"], P["emin"]
+    signed = rng.random() < 0.55
+    bits = rng.choice(NP_BITS)
+    lo, hi = fmt_range({"signed": signed, "bits": bits})
+    r = rng.random()
+    if r < 0.40:
+        frac = rng.randrange(0, bits + 1)
+    elif r < 0.70:
+        # around the points where 2.0**n_frac stops being a finite / non-zero value of the narrow format
+        frac = rng.choice([emax - 2, emax - 1, emax, emax + 1, emax + 7, emin - 2, emin - 1, emin, emin + 1,
+                           emax - bits, emax - bits + 1, 1 - emax, -emax])
+    elif r < 0.9:
+        frac = rng.randrange(-40, 70)
+    else:
+        frac = rng.randrange(-220, 220)
+    fmt = {"signed": signed, "bits": bits, "frac": frac}
+    top = math.ldexp(2.0 - 2.0 ** (1 - P["p"]), emax - 1)         # largest finite value
+    tiny = math.ldexp(1.0, emin)                                  # least subnormal
+    xs = []
+    n = rng.choice([6, 8, 12, 16])
+    pool = [to_narrow(x, prec) for x in gen_values(rng, fmt, 2 * n)]
+    pool = [x for x in pool if x is not None]
+    while len(xs) < n:
+        r = rng.random()
+        if r < 0.5 and pool:
+            x = pool.pop()
+        elif r < 0.7:
+            x = rng.choice([0.0, -0.0, tiny, -tiny, 3 * tiny, top, -top, math.ldexp(1.0, emin + P["p"] - 1),
+                            1.0, -1.0, 0.5, -0.25, 100.0, -300.0])
+        elif r < 0.85:
+            # the scaled value just around the overflow threshold of the narrow format
+            x = to_narrow(math.ldexp(rng.choice([1, -1]) * rng.uniform(0.4, 2.2), emax - frac), prec) \
+                if -1100 < emax - frac < 1020 else None
+        else:
+            x = to_narrow(math.ldexp(rng.random() * 2 - 1, rng.randrange(emin - 2, emax)), prec)
+        if x is None:
+            continue
+        xs.append(x)
+    return {"kind": "narrow", "prec": prec, "fmt": fmt, "vs": [to_dy(x) for x in xs], "shape": rng.randrange(7)}
+
+
+def finite_in_dtype(p, frac, prec):
+    """is the scaled value p * 2^frac a finite number of the narrow format (magnitude below 2^emax)?"""
+    m, e = p
+    if m == 0:
+        return True
+    return abs(m).bit_length() + e + frac <= NARROW[prec]["emax"]
+
+
+def impl_narrow(case):
+    import numpy as np
+    from rig import type_casts as tc
+    fmt = case["fmt"]
+    s, b, f = fmt["signed"], fmt["bits"], fmt["frac"]
+    dt = getattr(np, NARROW[case["prec"]]["np"])
+    xs = [from_dy(p) for p in case["vs"]]
+    out = {}
+    with np.errstate(all="ignore"):
+        arr = shape_array(np, xs, case["shape"], dt)
+        assert [to_dy(float(x)) for x in arr.reshape(-1).tolist()] == [list(p) for p in case["vs"]], \
+            "value is not a %s" % dt.__name__
+        mk = call(tc.float_to_fp, s, b, f)
+        out["fp"] = []
+        for x in xs:
+            r = call(mk["ok"], x) if "ok" in mk else mk
+            out["fp"].append({"ok": int(r["ok"])} if "ok" in r else r)
+        mk = call(tc.NumpyFloatToFixConverter, s, b, f)
+        if "err" in mk:
+            out["np"] = [mk] * len(xs)
+        else:
+            r = call(mk["ok"], arr)
+            if "err" in r:
+                out["np"] = [r] * len(xs)
+            else:
+                res = r["ok"]
+                out["np_meta"] = bool(res.shape == arr.shape and res.dtype == np.dtype(NP_DTYPE[(s, b)]))
+                out["np_dtype"] = str(res.dtype)
+                out["np"] = [{"ok": int(v)} for v in res.reshape(-1).tolist()]
+    return out
 
 
 # ---------------------------------------------------------------- implementation side
@@ -403,6 +543,9 @@ def detect_variant(ctx):
         var["fix"] = "repaired" if r.get("ok") == 2 ** 63 - 1 else "pinned"
         r = call(lambda: int(tc.NumpyFloatToFixConverter(True, 64, 0)(np.array([2.0 ** 63]))[0]))
         var["np"] = "repaired" if r.get("ok") == 2 ** 63 - 1 else "pinned"
+        # fixes/c16-float32-arrays.diff: the array converter computes in float64 whatever the input dtype
+        r = call(lambda: int(tc.NumpyFloatToFixConverter(True, 32, 16)(np.array([0.5], dtype=np.float16))[0]))
+        var["narrow"] = "float64" if r.get("ok") == 32768 else "input-dtype"
     ctx.extra["code_variant"] = var
     return var
 
@@ -443,7 +586,9 @@ def eval_conv(ctx, cases):
 
 def sub_case(c, ids):
     d = {"kind": c["kind"], "fmt": c["fmt"], "shape": 0}
-    if c["kind"] == "conv":
+    if c["kind"] == "narrow":
+        d["prec"] = c["prec"]
+    if c["kind"] in ("conv", "narrow"):
         d["vs"] = [c["vs"][i] for i in ids]
     else:
         d["ks"] = [c["ks"][i] for i in ids]
@@ -637,13 +782,101 @@ def judge_inv(ctx, c):
     ctx.case(desc, big)
 
 
+def eval_narrow(ctx, cases):
+    reqs, idx = [], []
+    var = ctx.extra.get("code_variant") or detect_variant(ctx)
+    for c in cases:
+        c["impl"] = impl_narrow(c)
+        fmt, vs = c["fmt"], c["vs"]
+        rep = var.get("np") == "repaired"
+        if var.get("narrow") == "float64":
+            reqs.append(fmt_req(fmt, "np_float_to_fix", vs=vs, repaired=rep))
+        else:
+            reqs.append(fmt_req(fmt, "np_float_to_fix_narrow", vs=vs, repaired=rep, prec=c["prec"]))
+        idx.append((c, "m_np"))
+        reqs.append(fmt_req(fmt, "float_to_fp", vs=vs))
+        idx.append((c, "m_fp"))
+        sel = [i for i, r in enumerate(c["impl"]["np"]) if "ok" in r]
+        c["sel_np"] = sel
+        reqs.append(fmt_req(fmt, "spec_fp", vs=[vs[i] for i in sel], rs=[c["impl"]["np"][i]["ok"] for i in sel]))
+        idx.append((c, "o_np"))
+    for (c, what), r in zip(idx, ctx.lean(reqs)):
+        c[what] = r
+    for c in cases:
+        judge_narrow(ctx, c)
+
+
+def judge_narrow(ctx, c):
+    fmt, vs, impl, prec = c["fmt"], c["vs"], c["impl"], c["prec"]
+    desc = {k: c[k] for k in ("kind", "prec", "fmt", "vs", "shape")}
+    lo, hi = fmt_range(fmt)
+    dtn = NARROW[prec]["np"]
+    ctx.traces += 1
+    # correspondence: scalar converter on the same values, array converter in the detected variant
+    for i, (a, m) in enumerate(zip(impl["fp"], c["m_fp"])):
+        if a != m:
+            ctx.mismatch("c16.fp", "%s value=%r impl=%r model=%r" % (describe(fmt), vs[i], a, m), sub_case(c, [i]))
+            break
+    for i, (a, m) in enumerate(zip(impl["np"], c["m_np"])):
+        if m.get("ok") == "unspecified":
+            ctx.tag("narrow_cast_unspecified")
+            continue
+        if a != m:
+            ctx.mismatch("c16.np_narrow", "%s %s value=%r impl=%r model=%r" % (
+                describe(fmt), dtn, vs[i], a, m), sub_case(c, [i]))
+            break
+    # oracle: the Lean rule on every element the array converter returned
+    for j, ok in enumerate(c["o_np"]):
+        i = c["sel_np"][j]
+        if ok:
+            continue
+        if finite_in_dtype(vs[i], fmt["frac"], prec):
+            ctx.violation("array-float32-wrap",
+                          "NumpyFloatToFixConverter %s on a %s array: element %r -> %r violates the conversion rule "
+                          "(scaled, truncated toward zero, saturated to [%d, %d]); float_to_fp gives %r" % (
+                              describe(fmt), dtn, from_dy(vs[i]), impl["np"][i]["ok"], lo, hi,
+                              impl["fp"][i].get("ok", impl["fp"][i])),
+                          sub_case(c, [i]))
+            break
+        # the scaled value is not a finite number of the input's own dtype: outside the narrowest reading of
+        # the property ("whose scaled value is still a finite float"), so only compared with the model
+        ctx.tag("narrow_rule_differs_scaled_value_overflows_dtype")
+    if impl.get("np_meta") is False:
+        ctx.violation("array-shape-dtype", "NumpyFloatToFixConverter %s returned dtype %s / a different shape for a "
+                      "%s array" % (describe(fmt), impl.get("np_dtype"), dtn), desc)
+    # distribution
+    P = NARROW[prec]
+    sat = frc = False
+    ctx.tag("narrow_" + prec)
+    if "err" in impl["np"][0]:
+        ctx.tag("narrow_np_" + impl["np"][0]["err"])
+    if fmt["frac"] >= P["emax"]:
+        ctx.tag("narrow_scale_overflows_dtype")
+    elif fmt["frac"] < P["emin"]:
+        ctx.tag("narrow_scale_underflows_dtype")
+    for i, p in enumerate(vs):
+        if "err" in impl["fp"][i]:
+            continue
+        if not finite_in_dtype(p, fmt["frac"], prec):
+            ctx.tag("narrow_product_overflows_dtype")
+        q = frac_of(p) * Fraction(2) ** fmt["frac"]
+        if q >= hi + 1 or q <= lo - 1:
+            sat = True
+        elif q.denominator != 1:
+            frc = True
+    ctx.case(desc, sat and frc)
+
+
 def eval_cases(ctx, cases):
     conv = [c for c in cases if c["kind"] == "conv"]
     inv = [c for c in cases if c["kind"] == "inv"]
+    narrow = [c for c in cases if c["kind"] == "narrow"]
     for i in range(0, len(conv), 1500):
         eval_conv(ctx, conv[i:i + 1500])
     for i in range(0, len(inv), 1500):
         eval_inv(ctx, inv[i:i + 1500])
+    for i in range(0, len(narrow), 1500):
+        eval_narrow(ctx, narrow[i:i + 1500])
 
 
 FIXED = [
@@ -658,27 +891,41 @@ FIXED = [
      "ks": [2 ** 53 + 1, 2 ** 53, -(2 ** 53) - 1, 2 ** 63 - 1, -(2 ** 63), 2 ** 62 + 2 ** 10, 5]},
     {"kind": "inv", "fmt": {"signed": False, "bits": 64, "frac": 7}, "shape": 0,
      "ks": [2 ** 64 - 1, 2 ** 64 - 2048, 2 ** 53 + 1, 12345678901234567]},
+    # float16 / float32 input arrays: the scale 2.0**n_frac is not a finite value of the input's dtype
+    {"kind": "narrow", "prec": "f16", "fmt": {"signed": True, "bits": 32, "frac": 16}, "shape": 0,
+     "vs": [to_dy(x) for x in (0.5, 0.0, -0.25, 1.0, 100.0, 0.333251953125, 65504.0)]},
+    {"kind": "narrow", "prec": "f32", "fmt": {"signed": True, "bits": 32, "frac": 128}, "shape": 1,
+     "vs": [to_dy(x) for x in (2.0 ** -149, 0.0, -(2.0 ** -149), 1.0, 2.0 ** -100, 3.0 * 2.0 ** -98)]},
+    {"kind": "narrow", "prec": "f32", "fmt": {"signed": True, "bits": 32, "frac": 0}, "shape": 0,
+     "vs": [to_dy(x) for x in (1.0000000150474662e+30, -1.0000000150474662e+30, 2147483520.0, 2147483648.0, 0.75, -0.75)]},
 ]
 
 
 def run(ctx):
     ctx.extra["rule"] = RULE
     ctx.assumptions += [
-        "inputs are finite IEEE doubles (float / float64 arrays); float32 arrays, NaN and infinities are outside the claim",
-        "scaling a double by a power of two is exact barring overflow/underflow; int() truncates; int->double is "
-        "round-to-nearest-even; np.clip compares exactly; an out-of-range float->int cast is unspecified",
+        "inputs are finite IEEE binary floats (python float, float64 / float32 / float16 arrays); np.longdouble arrays, "
+        "NaN and infinities are outside the claim",
+        "CPython int->float and NumPy int64/uint64->float64 are IEEE round-to-nearest-even (the model's round53 is "
+        "PROVED to be that rounding); scaling a binary float by a power of two is exact barring overflow/underflow; "
+        "int() truncates; np.clip compares exactly; an out-of-range / NaN float->int cast is unspecified",
+        "float32 / float16 arrays on code without fixes/c16-float32-arrays.diff: NumPy >= 2 promotion (python scalars "
+        "take the array's dtype); an element counts as a violation only when its scaled value is finite in its own dtype",
         "formats: the array converter accepts widths 8/16/32/64 only; the deprecated converters accept "
-        "0 <= n_frac <= n_bits - signed only (ValueError otherwise, modelled)",
+        "0 <= n_frac <= n_bits - signed and n_int <= 1023 only (ValueError / OverflowError otherwise, modelled)",
     ]
     rng = ctx.rng
     n_conv = ctx.scale(2500, 62000)
     n_inv = ctx.scale(700, 8000)
+    n_narrow = ctx.scale(800, 12000)
     if ctx.extended:
         n_conv *= 4
         n_inv *= 4
+        n_narrow *= 4
     cases = [dict(c) for c in FIXED]
     cases += [gen_conv_case(rng) for _ in range(n_conv)]
     cases += [gen_inv_case(rng) for _ in range(n_inv)]
+    cases += [gen_narrow_case(rng) for _ in range(n_narrow)]
     if not ctx.quick or ctx.extended:
         # all boundary neighbourhoods of every (signed, bits, frac)
         for signed in (True, False):
